@@ -83,11 +83,13 @@ PROPS = {
         "title": "skip() consumes exactly one item",
         "bounds": "structure: ALL byte strings of length N over the 13-letter alphabet of one-byte items (00 20 80 81 82 83 9f a0 a1 bf c1 f6 ff), N = 1..5 (quick) / ..7 (thorough) "
                   "in the no-alloc build, N = 1..3 in the alloc build in the THOROUGH tier only (explicit Vec stack: N=2 takes ~13 min; each capped at 2 h); the quick tier checks the alloc build on the heads group only, vs the independent item-boundary parser R3, incl. every strict prefix and arbitrary suffix; "
-                  "leaf accessors replaced by one-byte models proven equivalent on that domain (c06_lm_*); heads and strings: one item per concrete initial byte with the real accessors",
+                  "leaf accessors replaced by one-byte models proven equivalent on that domain (c06_lm_*); heads and strings: one item per concrete initial byte with the real accessors; "
+                  "full-width counters: a definite array / map head with ANY 8-byte length (symbolic) followed by 0 or 2 one-byte scalars and the end of the input (no-alloc quick, alloc thorough): Ok exactly when the declared item count (2n for maps, unwrapped) is present; "
+                  "alloc stack mode behind a concrete prefix (83 9f ff / 82 9f) + one symbolic alphabet byte + 3 bytes over {00, ff} (thorough)",
         "outside": "more than N one-byte items; multi-byte heads inside nested containers (compositional: lm_equiv + heads group); depth-10^4 chains; the alloc build's stack-mode logic beyond N=3 (its smallest witness for a definite map after a closed indefinite sibling needs N=7: not reached); containers that end by running out of input with multi-byte heads",
         "assumptions": ["leaf models (each proven equivalent to the real accessor on the asserted domain)", "from_utf8 modelled as always-valid in the text-head harnesses (boundaries, not validation)"],
-        "groups": [core({"quick": ["c06::c06_lm", "c06::c06_a1", "c06_gen::q::"], "thorough": ["c06::c06_", "c06_gen::"]}),
-                   core({"quick": ["c06_gen::q::", "c06::c06_lm"], "thorough": ["c06::c06_a1_n1", "c06::c06_a1_n2", "c06::c06_a1_n3", "c06_gen::", "c06::c06_lm"]}, features=("half", "alloc"),
+        "groups": [core({"quick": ["c06::c06_lm", "c06::c06_a1", "c06::c06_wide", "c06_gen::q::"], "thorough": ["c06::c06_", "c06_gen::"]}),
+                   core({"quick": ["c06_gen::q::", "c06::c06_lm"], "thorough": ["c06::c06_a1_n1", "c06::c06_a1_n2", "c06::c06_a1_n3", "c06::c06_wide", "c06::c06_stack_mode", "c06_gen::", "c06::c06_lm"]}, features=("half", "alloc"),
                         timeout={"quick": 600, "thorough": 7200})],
     },
     "C07": {
@@ -143,7 +145,8 @@ PROPS = {
                   "Post: value == frame value & source behind the frame & fresh state | Pending/transient error => Inv again | EOF inside => UnexpectedEof | clean end only at a boundary. Base case: new() satisfies Inv",
         "outside": "the lifting from one step to poll/drop schedules of any length is an induction ARGUMENT (post-states are Inv states, which are all covered as pre-states), not a query; payloads > 2 bytes; > 2 completed reads in one poll",
         "assumptions": ["Vec::resize replaced by a fixed-capacity growth model", "hook: cfg(minicbor_verif) __verif_from_parts/__verif_state (add-only)"],
-        "groups": [io({"quick": ["c15::c15_q_", "c15::c15_new"], "thorough": ["c15::c15_"]}, timeout={"quick": 850, "thorough": 3600}, mem_gb={"quick": 20, "thorough": 30}, jobs={"quick": 3, "thorough": 2})],
+        "groups": [io({"quick": ["c15::c15_q_step", "c15::c15_new"], "thorough": ["c15::c15_q_step", "c15::c15_t_step", "c15::c15_new"]}, timeout={"quick": 850, "thorough": 3600}, mem_gb={"quick": 13, "thorough": 30}, jobs={"quick": 5, "thorough": 2}),
+                   io({"quick": ["c15::c15_q_s_"], "thorough": ["c15::c15_q_s_", "c15::c15_t_s_"]}, timeout={"quick": 600, "thorough": 1800}, mem_gb={"quick": 10, "thorough": 12}, jobs={"quick": 8, "thorough": 6})],
     },
     "C16": {
         "title": "AsyncWriter delivers whole frames in order under short writes and cancel+sync",
@@ -184,10 +187,10 @@ PROPS = {
         "outside": "error MESSAGES (static vs formatted) and error classes beyond Ok/Err where the single-build oracle only requires 'an error'; 32-bit targets and atomic32; the alloc-build skip beyond N=3",
         "assumptions": ["agreement is derived by transitivity (argument), each build is decided by its own queries"],
         "groups": [
-            core({"quick": ["c05::c05_u8", "c05::c05_u64", "c05::c05_i8", "c05::c05_i64", "c05::c05_int", "c05::c05_char", "c04::c04_datatype", "c04::c04_bytes_definite", "c03::c03_u64", "c03::c03_i64", "c03::c03_simple", "c06::c06_lm", "c06::c06_a1_n3", "c06::c06_a1_n4"],
-                  "thorough": ["c05::c05_", "c04::c04_", "c03::c03_", "c06::c06_lm", "c06::c06_a1_n", "::q::c01", "::q::c07"]}, features=(), timeout={"quick": 800, "thorough": 3600}),
+            core({"quick": ["c05::c05_u8", "c05::c05_u64", "c05::c05_i8", "c05::c05_i64", "c05::c05_int", "c05::c05_char", "c04::c04_datatype", "c04::c04_bytes_definite", "c03::c03_u64", "c03::c03_i64", "c03::c03_simple", "c06::c06_lm", "c06::c06_a1_n3", "c06::c06_a1_n4", "c06::c06_wide_len_map"],
+                  "thorough": ["c05::c05_", "c04::c04_", "c03::c03_", "c06::c06_lm", "c06::c06_a1_n", "c06::c06_wide", "::q::c01", "::q::c07"]}, features=(), timeout={"quick": 800, "thorough": 3600}),
             core({"quick": ["c05::c05_u8", "c05::c05_u64", "c05::c05_i8", "c05::c05_i64", "c05::c05_int", "c05::c05_char", "c04::c04_datatype", "c03::c03_u64", "c03::c03_i64", "c03::c03_simple", "c06::c06_lm"],
-                  "thorough": ["c05::c05_", "c04::c04_", "c03::c03_", "c06::c06_lm", "c06::c06_a1_n1", "c06::c06_a1_n2", "::q::c01", "::q::c07"]}, features=("alloc",), timeout={"quick": 400, "thorough": 7200}),
+                  "thorough": ["c05::c05_", "c04::c04_", "c03::c03_", "c06::c06_lm", "c06::c06_a1_n1", "c06::c06_a1_n2", "c06::c06_wide_len_map_0", "c06::c06_wide_len_array_0", "::q::c01", "::q::c07"]}, features=("alloc",), timeout={"quick": 400, "thorough": 7200}),
             core(["c05::c05_", "c04::c04_", "c03::c03_", "c12::c12_", "c11_gen::q::"], features=("half", "std"), tiers=["thorough"]),
             core(["c05::c05_", "c04::c04_", "c03::c03_", "::q::c01", "::q::c07"], features=("std",), tiers=["thorough"]),
             core(["c05::c05_", "c04::c04_", "c12::c12_", "c11_gen::q::"], features=("half", "alloc"), tiers=["thorough"]),
